@@ -3,7 +3,7 @@
 import json, subprocess
 
 CLAIMED = {
- "C01": ("generated-input search (proptest): corpus mutations, token soup, built-in calls, raw bytes, depth ladder; oracle = returns Ok/Err, no panic/abort/parser hang, in a watchdog-supervised worker",
+ "C01": ("generated-input search (proptest): corpus under three syntaxes, corpus mutations, generated sheets / rule trees / SassScript programs (programs the reference interpreter finishes must also terminate in evaluation), token soup, built-in calls, raw bytes through from_path/@import/@use/@forward, depth ladder; oracle = returns Ok/Err, no panic/abort/parser hang, in a watchdog-supervised worker; thorough adds a coverage-guided libFuzzer + ASan campaign with the same oracle in the target",
          "Sampling of the input space with shrinking; a green run means no crash, abort or parser hang among the generated inputs (counts in evidence). Coverage-guided libFuzzer campaign in the thorough tier.",
          "2/C01"),
  "C02": ("metamorphic relation over histories (proptest vec of prior compilations incl. identifier-permuting sheets), fresh-process repeats and concurrent thread storms; oracle = byte equality with the fresh-thread run; unique-id() distinctness",
